@@ -11,7 +11,7 @@ namespace TransEquiv
 /-- `slideWindow.Write` = `Win.write` (all four branches); the byte count it returns is `len(p)`, or 0 for a
 disabled window -/
 theorem slideWindow_Write_eq (w : Win) (p : Bytes) :
-    Trans.slideWindow_Write p w.enabled w.dict (w.size : Int) =
+    Trans.slideWindow_Write p (c_enabled := w.enabled) (c_dict := w.dict) (c_size := (w.size : Int)) =
       ((w.write p).dict, (if w.enabled then (p.length : Int) else 0), none) := by
   unfold Trans.slideWindow_Write Win.write
   cases hE : w.enabled
@@ -64,7 +64,8 @@ theorem Min_eq (a b : Int) : Trans.internal_Min a b = min a b := by
 /-- `doWrite`: the payload of a data frame (Continuation, Text, Binary) enters the compression window, the payload of a
 control frame does not (defect 10 of DESIGN section 6 was exactly this rule) -/
 theorem doWrite_windowRule_eq (w : Win) (opcode : UInt8) (payload : Bytes) :
-    Trans.Conn_doWrite_windowRule w.enabled w.dict (w.size : Int) opcode payload
+    Trans.Conn_doWrite_windowRule (c_cpsWindow_enabled := w.enabled) (c_cpsWindow_dict := w.dict) (c_cpsWindow_size := (w.size : Int))
+        (opcode := opcode) (payload := payload)
       = .ok (if opcode.toNat ≤ Facts.dataFrameMaxOpcode then (w.write payload).dict else w.dict) := by
   unfold Trans.Conn_doWrite_windowRule
   rw [slideWindow_Write_eq]
@@ -76,7 +77,8 @@ theorem doWrite_windowRule_eq (w : Win) (opcode : UInt8) (payload : Bytes) :
 /-- `Broadcaster.writeFrame`: the broadcast payload enters the window iff the shared frame has RSV1 set, i.e. was built
 compressed (defect 11) -/
 theorem broadcast_windowRule_eq (w : Win) (frame payload : Bytes) :
-    Trans.Broadcaster_writeFrame_windowRule payload w.enabled w.dict (w.size : Int) frame
+    Trans.Broadcaster_writeFrame_windowRule (c_payload := payload) (socket_cpsWindow_enabled := w.enabled) (socket_cpsWindow_dict := w.dict)
+        (socket_cpsWindow_size := (w.size : Int)) (frame := frame)
       = .ok (if ((goIdx frame 0).toNat / 64 % 2 = 1) then (w.write payload).dict else w.dict) := by
   unfold Trans.Broadcaster_writeFrame_windowRule
   rw [slideWindow_Write_eq]
@@ -85,7 +87,7 @@ theorem broadcast_windowRule_eq (w : Win) (frame payload : Bytes) :
   rw [h]
   by_cases hd : (goIdx frame 0).toNat / 64 % 2 = 1 <;> simp [hd]
 
-example : Trans.slideWindow_Write [1, 2, 3] true [9, 8] 4 = ([8, 1, 2, 3], 3, none) := by decide
+example : Trans.slideWindow_Write [1, 2, 3] (c_enabled := true) (c_dict := [9, 8]) (c_size := 4) = ([8, 1, 2, 3], 3, none) := by decide
 example : Trans.internal_binaryCeil 129 = 256 ∧ Trans.internal_BinaryPow 8 = 256 := by decide
 
 end TransEquiv
